@@ -148,6 +148,14 @@ var Items = []Item{
 	{ID: "named-result", Decls: "func nr%N%() (x uint64) {\n\tx = 3\n\treturn\n}", Core: "r = nr%N%()"},
 	{ID: "func-var", Core: "var f func() uint64 = func() uint64 {\n\t\treturn 2\n\t}\n\tr = f()", NoCtx: true},
 	{ID: "embedded-field", Decls: "type Eb%N% struct {\n\ta uint64\n}\n\ntype Eo%N% struct {\n\tEb%N%\n}", Core: "o := Eo%N%{}\n\tr = o.a + 1", NoCtx: true},
+	// embedded struct: promoted field/method × read / store / address / explicit path (seeded change C02-6)
+	{ID: "embedded-promoted-store", Decls: "type Eb3%N% struct {\n\ta uint64\n}\n\nfunc (e Eb3%N%) get() uint64 {\n\treturn e.a + 1\n}\n\ntype Eo3%N% struct {\n\tEb3%N%\n\tb uint64\n}", Core: "var o Eo3%N%\n\to.a = 7\n\tr = o.Eb3%N%.a + o.b", NoCtx: true},
+	{ID: "embedded-promoted-store-through-pointer", Decls: "type Eb3%N% struct {\n\ta uint64\n}\n\nfunc (e Eb3%N%) get() uint64 {\n\treturn e.a + 1\n}\n\ntype Eo3%N% struct {\n\tEb3%N%\n\tb uint64\n}", Core: "o := &Eo3%N%{}\n\to.a = 7\n\tr = o.Eb3%N%.a + o.b", NoCtx: true},
+	{ID: "embedded-promoted-address", Decls: "type Eb3%N% struct {\n\ta uint64\n}\n\nfunc (e Eb3%N%) get() uint64 {\n\treturn e.a + 1\n}\n\ntype Eo3%N% struct {\n\tEb3%N%\n\tb uint64\n}", Core: "o := &Eo3%N%{}\n\tp := &o.a\n\t*p = 7\n\tr = o.Eb3%N%.a", NoCtx: true},
+	{ID: "embedded-promoted-opassign", Decls: "type Eb3%N% struct {\n\ta uint64\n}\n\nfunc (e Eb3%N%) get() uint64 {\n\treturn e.a + 1\n}\n\ntype Eo3%N% struct {\n\tEb3%N%\n\tb uint64\n}", Core: "o := &Eo3%N%{}\n\to.a += 7\n\tr = o.Eb3%N%.a", NoCtx: true},
+	{ID: "embedded-promoted-method", Decls: "type Eb3%N% struct {\n\ta uint64\n}\n\nfunc (e Eb3%N%) get() uint64 {\n\treturn e.a + 1\n}\n\ntype Eo3%N% struct {\n\tEb3%N%\n\tb uint64\n}", Core: "o := Eo3%N%{b: 2}\n\tr = o.get() + o.b", NoCtx: true},
+	{ID: "embedded-explicit-path", Decls: "type Eb3%N% struct {\n\ta uint64\n}\n\nfunc (e Eb3%N%) get() uint64 {\n\treturn e.a + 1\n}\n\ntype Eo3%N% struct {\n\tEb3%N%\n\tb uint64\n}", Core: "o := &Eo3%N%{}\n\to.Eb3%N%.a = 7\n\tr = o.Eb3%N%.a + o.Eb3%N%.get()", NoCtx: true},
+	{ID: "embedded-literal", Decls: "type Eb3%N% struct {\n\ta uint64\n}\n\nfunc (e Eb3%N%) get() uint64 {\n\treturn e.a + 1\n}\n\ntype Eo3%N% struct {\n\tEb3%N%\n\tb uint64\n}", Core: "o := Eo3%N%{Eb3%N%: Eb3%N%{a: 3}, b: 2}\n\tr = o.Eb3%N%.a + o.b", NoCtx: true},
 	{ID: "multi-name-field", Decls: "type Mf%N% struct {\n\ta, b uint64\n}", Core: "o := Mf%N%{a: 1, b: 2}\n\tr = o.a + o.b", NoCtx: true},
 	{ID: "generic-struct", Decls: "type Gs%N%[T any] struct {\n\tv T\n}", Core: "o := Gs%N%[uint64]{v: 3}\n\tr = o.v", NoCtx: true},
 	// ---- package-level constants: untyped / typed × the width they are used at (seeded change C02-3) ----
@@ -278,6 +286,23 @@ var Items = []Item{
 	{ID: "type-alias", Decls: "type Al%N% = uint64", Setup: "var a Al%N% = 4", Core: "r = a + 1"},
 	{ID: "generic-type-method", Known: "c02GenericMethodCrash", Decls: "type Gt%N%[T any] struct {\n\tv T\n}\n\nfunc (g Gt%N%[T]) get() T {\n\treturn g.v\n}", Core: "o := Gt%N%[uint64]{v: 3}\n\tr = o.get()", NoCtx: true},
 	{ID: "init-func", Decls: "var initv%N% uint64\n\nfunc init() {\n\tinitv%N% = 3\n}", Core: "r = initv%N% + 1"},
+
+	// ---- maps: lookup of a missing key × value type × plain / named map type (seeded change C01-8) ----
+	{ID: "map-missing-bool", Core: "m := make(map[uint64]bool)\n\tm[1] = true\n\tif !m[3] {\n\t\tr = 1\n\t}\n\tif m[1] {\n\t\tr += 2\n\t}", NoCtx: true},
+	{ID: "map-missing-string", Core: "m := make(map[uint64]string)\n\tm[1] = \"ab\"\n\tr = uint64(len(m[3]))*10 + uint64(len(m[1])) + 1", NoCtx: true},
+	{ID: "map-missing-u32", Core: "m := make(map[uint64]uint32)\n\tm[1] = 7\n\tr = uint64(m[3]+1)*10 + uint64(m[1])", NoCtx: true},
+	{ID: "map-missing-u8", Core: "m := make(map[uint64]byte)\n\tm[1] = 7\n\tr = uint64(m[3]+1)*10 + uint64(m[1])", NoCtx: true},
+	{ID: "map-missing-struct", Decls: "type Mv2%N% struct {\n\ta uint64\n\tb bool\n}", Core: "m := make(map[uint64]Mv2%N%)\n\tm[1] = Mv2%N%{a: 5, b: true}\n\tx := m[3]\n\ty := m[1]\n\tif !x.b {\n\t\tr = x.a + y.a + 1\n\t}", NoCtx: true},
+	{ID: "map-missing-slice", Core: "m := make(map[uint64][]uint64)\n\tm[1] = make([]uint64, 2)\n\tr = uint64(len(m[3]))*10 + uint64(len(m[1])) + 1", NoCtx: true},
+	{ID: "map-missing-pointer", Core: "m := make(map[uint64]*uint64)\n\tp := new(uint64)\n\tm[1] = p\n\tif m[3] == nil {\n\t\tr = 1\n\t}\n\tif m[1] != nil {\n\t\tr += 2\n\t}", NoCtx: true},
+	{ID: "map-missing-comma-ok-string", Core: "m := make(map[uint64]string)\n\tv, ok := m[3]\n\tif !ok {\n\t\tr = uint64(len(v)) + 1\n\t}", NoCtx: true},
+	{ID: "map-string-key", Core: "m := make(map[string]uint64)\n\tm[\"a\"] = 4\n\tr = m[\"a\"]*10 + m[\"b\"] + 1", NoCtx: true},
+	{ID: "named-map-missing-bool", Decls: "type Nmb%N% map[uint64]bool", Core: "m := make(Nmb%N%)\n\tif !m[3] {\n\t\tr = 1\n\t}", NoCtx: true},
+	{ID: "named-map-insert", Decls: "type Nmi%N% map[uint64]bool", Core: "m := make(Nmi%N%)\n\tm[1] = true\n\tif m[1] {\n\t\tr = 2\n\t}", NoCtx: true},
+	{ID: "named-map-missing-string", Decls: "type Nms%N% map[uint64]string", Core: "m := make(Nms%N%)\n\tr = uint64(len(m[3])) + 1", NoCtx: true},
+	{ID: "named-map-missing-u32-string-key", Decls: "type Nmk%N% map[string]uint32", Core: "m := make(Nmk%N%)\n\tr = uint64(m[\"zz\"] + 1)", NoCtx: true},
+	{ID: "named-map-param", Decls: "type Nmp%N% map[uint64]bool\n\nfunc has%N%(m Nmp%N%, k uint64) bool {\n\treturn m[k]\n}", Core: "m := make(map[uint64]bool)\n\tm[1] = true\n\tif has%N%(m, 1) && !has%N%(m, 2) {\n\t\tr = 1\n\t}", NoCtx: true},
+	{ID: "map-alias-missing-bool", Decls: "type Nma%N% = map[uint64]bool", Core: "m := make(Nma%N%)\n\tif !m[3] {\n\t\tr = 1\n\t}", NoCtx: true},
 
 	// ---- interfaces: struct-to-interface conversion × the position of the converting call ----
 	{ID: "interface-call-assign", NoCtx: true, Decls: "type Sh%N% interface {\n\tArea() uint64\n\tScale(k uint64) uint64\n}\n\ntype Sq%N% struct {\n\tside uint64\n}\n\nfunc (s Sq%N%) Area() uint64 {\n\treturn s.side * s.side\n}\n\nfunc (s Sq%N%) Scale(k uint64) uint64 {\n\treturn s.side * k\n}\n\nfunc meas%N%(s Sh%N%) uint64 {\n\treturn s.Area() + s.Scale(2)\n}", Setup: "q := Sq%N%{side: 3}", Core: "r = meas%N%(q)"},
